@@ -56,8 +56,22 @@ def ref_event(ev, base):
     }
 
 
+_USE_ARGV = [False]
+
+
 def impl_test(pattern_text, old_text, rev, set_version=None):
-    """The real `bumpver test` command body."""
+    """The real `bumpver test` command body (through click's argv parsing if the body's signature was refactored)."""
+    if _USE_ARGV[0]:
+        args = cli_args(rev, set_version)
+        return world.cli("test", *args, "--", old_text, pattern_text)
+    o = _impl_test_callback(pattern_text, old_text, rev, set_version)
+    if o.crashed and o.crashed.startswith("TypeError") and "argument" in o.crashed:
+        _USE_ARGV[0] = True
+        return impl_test(pattern_text, old_text, rev, set_version)
+    return o
+
+
+def _impl_test_callback(pattern_text, old_text, rev, set_version=None):
     return world.callback(
         "test",
         old_version=old_text,
